@@ -1,2 +1,49 @@
-(** C14 - placeholder *)
-From VG Require Import Model.Pool.
+(** C14 - Concurrent RPCs are isolated from one another and race-free.
+    Statements only; proofs in Proofs/PoolProofs.v, Proofs/ResponseProofs.v.
+
+    What a proof about a sequential model can carry: (1) the ownership discipline that the pool
+    monitor checks on every observed trace means exclusivity - no buffer is ever held by two
+    owners - and rejects exactly double releases and hand-outs of held buffers; (2) the response
+    side keeps its discipline wherever the request side's goroutine reports a failure, given that
+    the two are serialised by the responseWriter's mutex (the interleavings are then the
+    placements of [BReadFault] in the script).  Data races themselves are outside any such model:
+    the check runs the concurrent suite under the Go race detector. *)
+From VG Require Import Model.Bytes Model.Pool Model.Response Model.Request Model.Serve.
+From VG Require Import Proofs.PoolProofs Proofs.ResponseProofs.
+Open Scope Z_scope.
+
+Theorem C14_exclusive_ownership : forall tr pre e post,
+  pool_trace_ok tr = true -> tr = pre ++ e :: post ->
+  exists s, prun (mkPs [] []) pre = Some s /\ PInv s /\
+    match e with
+    | PGet id => ~ In id (ps_out s)
+    | PPut id => ~ In id (ps_idle s)
+    end.
+Proof. exact accepted_trace_exclusive. Qed.
+Print Assumptions C14_exclusive_ownership.
+
+Theorem C14_double_release_detected : forall pre id s,
+  prun (mkPs [] []) pre = Some s -> In id (ps_idle s) -> forall post, pool_trace_ok (pre ++ PPut id :: post) = false.
+Proof. exact double_put_refused. Qed.
+Print Assumptions C14_double_release_detected.
+
+Theorem C14_use_while_held_detected : forall pre id s,
+  prun (mkPs [] []) pre = Some s -> In id (ps_out s) -> forall post, pool_trace_ok (pre ++ PGet id :: post) = false.
+Proof. exact get_of_held_refused. Qed.
+Print Assumptions C14_use_while_held_detected.
+
+(** A failure reported by the request side at any point between the handler's actions leaves
+    the client with exactly one well-formed response. *)
+Theorem C14_request_side_failure_anywhere : forall cx h s1 e s2 r wr res,
+  serve_response cx h (s1 ++ BReadFault e :: s2) = (r, wr, res) -> res <> WPanic ->
+  exists code hd eh body tail fl,
+    c_out (r_core r) = DHead code hd eh :: body ++ tail ++ DDone :: fl /\
+    forallb (fun e => negb (is_head e) && negb (is_term e) && negb (is_done e)) body = true /\
+    (tail = [] \/ exists t, is_term t = true /\ tail = [t]) /\ forallb is_flush fl = true.
+Proof. intros cx h s1 e s2. apply finished_response_shape. Qed.
+Print Assumptions C14_request_side_failure_anywhere.
+
+Example C14_ex_trace_ok : pool_trace_ok [PGet 1; PGet 2; PPut 1; PGet 1; PPut 2; PPut 1] = true.
+Proof. reflexivity. Qed.
+Example C14_ex_double_put : pool_trace_ok [PGet 1; PPut 1; PPut 1] = false.
+Proof. reflexivity. Qed.
